@@ -59,16 +59,27 @@ Proof. vm_compute. reflexivity. Qed.
 Example spec_model_expire_nonvacuous :
   let sc := Script false [MArrive xtA; MArrive xtA; MArrive xtA; MExpire 0; MExpire 2; MRelease xgood1] in
   spec sc (model sc) = true /\
-  spec sc (OScript [mkSnap 1 false [SPending] []; mkSnap 1 false [SPending; SPending] [];
-                    mkSnap 1 false [SPending; SPending; SPending] [];
-                    mkSnap 1 false [SErr ECtx; SErr EFetch; SErr EFetch] [];
-                    mkSnap 1 false [SErr ECtx; SErr EFetch; SErr EFetch] [];
-                    mkSnap 1 false [SErr ECtx; SErr EFetch; SErr EFetch] []]) = false.
+  spec sc (OScript [mkSnap 1 false [SPending] [] true; mkSnap 1 false [SPending; SPending] [] true;
+                    mkSnap 1 false [SPending; SPending; SPending] [] true;
+                    mkSnap 1 false [SErr ECtx; SErr EFetch; SErr EFetch] [] true;
+                    mkSnap 1 false [SErr ECtx; SErr EFetch; SErr EFetch] [] true;
+                    mkSnap 1 false [SErr ECtx; SErr EFetch; SErr EFetch] [] true]) = false.
+Proof. vm_compute. auto. Qed.
+
+(* recovery: a failed download, then the endpoint recovers and serves a rotated key *)
+Example spec_recovery_nonvacuous :
+  let sc := Script false [MArrive xtA; MRelease (Http true BadDoc); MArrive xtB; MRelease xgood2; MArrive xtB] in
+  spec sc (model sc) = true /\
+  (* the stale error of the earlier download handed to the later call: rejected *)
+  spec sc (OScript [mkSnap 1 false [SPending] [] true; mkSnap 1 true [SErr EFetch] [] true;
+                    mkSnap 1 false [SErr EFetch; SErr EFetch] [] true;
+                    mkSnap 1 false [SErr EFetch; SErr EFetch] [] true;
+                    mkSnap 1 false [SErr EFetch; SErr EFetch; SErr EFetch] [] true]) = false.
 Proof. vm_compute. auto. Qed.
 
 (* and rejects what the unrepaired code did (F13): B fails when A is cancelled *)
 Example spec_rejects_F13 :
   spec (Script false [MArrive xtA; MArrive xtA; MCancel 0; MRelease xgood1])
-       (OScript [mkSnap 1 false [SPending] []; mkSnap 1 false [SPending; SPending] [];
-                 mkSnap 1 false [SErr ECtx; SErr EFetch] []; mkSnap 1 false [SErr ECtx; SErr EFetch] []]) = false.
+       (OScript [mkSnap 1 false [SPending] [] true; mkSnap 1 false [SPending; SPending] [] true;
+                 mkSnap 1 false [SErr ECtx; SErr EFetch] [] true; mkSnap 1 false [SErr ECtx; SErr EFetch] [] true]) = false.
 Proof. vm_compute. reflexivity. Qed.
